@@ -125,17 +125,83 @@ def verify_table(eng, ct, t0):
             "wall_s": round(time.time() - t0, 3), "sha": sha, "assumptions": [], "bounded": [], "calls": {}}
 
 
-def verify_many(cids, timeout_ms=10000, workers=None):
+def _resource_verdict(cid, why, wall):
+    """a contract whose verification ran out of its time / memory budget is *undecided* (exit 2), never a verdict on the code"""
+    ob = {"id": f"{cid}:unsupported:resource-budget", "kind": "unsupported", "label": "resource-budget", "path": "-", "verdict": "undecided",
+          "backend": None, "ms": int(wall * 1000), "top": False, "detail": why, "info": {"why": why}}
+    sha = None
+    try:
+        from .engine import Engine
+        eng = Engine(timeout_ms=1000)
+        mod, cls, fn = eng.find_function(C.CONTRACTS[cid])
+        sha = eng.index.source_hash(mod, fn)
+    except Exception:
+        pass
+    return {"cid": cid, "ok": True, "obligations": [ob], "paths": 0, "dead": 0, "symex_s": 0.0, "wall_s": round(wall, 3), "sha": sha,
+            "assumptions": [], "bounded": [], "calls": {}}
+
+
+def _child(cid, timeout_ms, conn, mem_bytes):
+    try:
+        import resource
+        resource.setrlimit(resource.RLIMIT_AS, (mem_bytes, mem_bytes))
+    except Exception:
+        pass
+    try:
+        res = verify_one(cid, timeout_ms)
+    except MemoryError:
+        res = _resource_verdict(cid, "memory budget exhausted", 0.0)
+    except BaseException as e:       # never let a worker die silently
+        res = {"cid": cid, "ok": False, "error": f"worker: {type(e).__name__}: {e}"}
+    try:
+        conn.send(res)
+    except Exception as e:
+        conn.send({"cid": cid, "ok": False, "error": f"worker result not transferable: {type(e).__name__}: {e}"})
+    conn.close()
+
+
+def verify_many(cids, timeout_ms=10000, workers=None, wall_budget_s=None, mem_gb=6):
+    """one forked process per contract (at most `workers` at a time), each with its own wall-clock and address-space budget:
+    a contract that hangs, explodes or crashes on changed code is reported as undecided and cannot take the others down"""
+    import multiprocessing as mp
+    ctxm = mp.get_context("fork")
     workers = workers or min(16, max(1, len(cids)))
+    wall_budget_s = wall_budget_s or max(300, 30 * timeout_ms / 1000)
+    pending = list(cids)
+    running = {}
     out = {}
-    with ProcessPoolExecutor(max_workers=workers) as ex:
-        futs = {ex.submit(verify_one, cid, timeout_ms): cid for cid in cids}
-        for f in as_completed(futs):
-            cid = futs[f]
-            try:
-                out[cid] = f.result()
-            except Exception as e:
-                out[cid] = {"cid": cid, "ok": False, "error": f"worker: {type(e).__name__}: {e}"}
+    while pending or running:
+        while pending and len(running) < workers:
+            cid = pending.pop(0)
+            parent, child = ctxm.Pipe(duplex=False)
+            p = ctxm.Process(target=_child, args=(cid, timeout_ms, child, int(mem_gb * 2 ** 30)), daemon=True)
+            p.start()
+            child.close()
+            running[cid] = (p, parent, time.time())
+        done = []
+        for cid, (p, conn, t0) in running.items():
+            if conn.poll(0.02):
+                try:
+                    out[cid] = conn.recv()
+                except EOFError:
+                    out[cid] = _resource_verdict(cid, "worker ended without a result (crash or memory budget)", time.time() - t0)
+                done.append(cid)
+            elif not p.is_alive():
+                out[cid] = _resource_verdict(cid, f"worker ended without a result (exit code {p.exitcode}: crash or memory budget)",
+                                             time.time() - t0)
+                done.append(cid)
+            elif time.time() - t0 > wall_budget_s:
+                p.terminate()
+                out[cid] = _resource_verdict(cid, f"wall-clock budget of {int(wall_budget_s)} s exhausted", time.time() - t0)
+                done.append(cid)
+        for cid in done:
+            p, conn, _ = running.pop(cid)
+            p.join(timeout=2)
+            if p.is_alive():
+                p.kill()
+            conn.close()
+        if not done:
+            time.sleep(0.05)
     return out
 
 
